@@ -294,6 +294,9 @@ func (u *Universe) GenOp(rng *rand.Rand, m *Model, o GenOpts) *Op {
 				// the same content is pushed under different media types over time
 				op.MediaType = pick(rng, []string{"application/vnd.oci.image.config.v1+json", "application/vnd.oci.image.layer.v1.tar", "application/x-blob; kind=2"})
 			}
+			if rng.IntN(4) == 0 {
+				op.DescExtra = true
+			}
 			switch rng.IntN(16) {
 			case 0:
 				op.Digest = Digest(append([]byte("other"), data...))
